@@ -1,5 +1,5 @@
 (* C14 (codec half) — non-vacuity examples for the hypotheses of SbsProps.v and concrete behaviour *)
-From Coq Require Import ZArith List Bool Lia.
+From Coq Require Import ZArith List Bool Lia Sorting.Sorted.
 From FV Require Import Lib.RustInt C14.SbsModel C14.SbsProofs C14.SbsSpec C14.SbsRoundtrip.
 Import ListNotations.
 Open Scope Z_scope.
@@ -42,7 +42,23 @@ Example sbs_extremes :
   rt_ok 32 [0; 4294967295] = true /\ rt_ok 0 [] = true.
 Proof. repeat split; vm_compute; reflexivity. Qed.
 
-(* sbs_roundtrip_partial covers sets with filled nodes, e.g. m = 255 = {0..7}: a single filled BF-8 node *)
+(* sbs_roundtrip_enumerated covers sets with filled nodes, e.g. m = 255 = {0..7}: a single filled BF-8 node *)
 Example sbs_roundtrip_nonvacuous :
   subset_of_mask 255 = [0; 1; 2; 3; 4; 5; 6; 7] /\ encode_bf 8 (subset_of_mask 255) = Some [6; 0].
 Proof. split; vm_compute; reflexivity. Qed.
+
+(* the hypotheses of sbs_roundtrip are met by a set with a completely filled BF-4 subtree, a straggler
+   and the extreme value 2^32-1; the encoder output is the one the theorem speaks about *)
+Example sbs_roundtrip_general_nonvacuous :
+  let S0 := [0; 1; 2; 3; 4; 5; 6; 7; 8; 9; 10; 11; 12; 13; 14; 15; 77; 4294967295] in
+  StronglySorted Z.lt S0 /\ Forall (fun v => 0 <= v < U32) S0 /\
+  (exists bytes, encode_bf 4 S0 = Some bytes /\
+     decode bytes 0 (U32 - 1) = Ok [(0, 15); (77, 77); (4294967295, 4294967295)] []) /\
+  (exists bytes, encode_bf 2 S0 = Some bytes /\ Z.land (hd 0 bytes) 3 = 1).   (* BF 2 upgraded to BF 4 *)
+Proof.
+  cbv zeta. split; [|split; [|split]].
+  - repeat (constructor; [|repeat (constructor; [lia|]); constructor]). constructor.
+  - repeat (constructor; [unfold U32; lia|]). constructor.
+  - eexists. split; [vm_compute; reflexivity | vm_compute; reflexivity].
+  - eexists. split; [vm_compute; reflexivity | vm_compute; reflexivity].
+Qed.
